@@ -2472,23 +2472,18 @@ pub fn needed_lets(slice: &[Stmt], ctx: &[Local], params: &[String]) -> Vec<Loca
     let (used, bound) = used_and_bound(slice);
     let mut needed: Vec<String> = used.into_iter().filter(|u| !bound.contains(u) && !params.contains(u)).collect();
     let mut take = vec![false; ctx.len()];
-    let mut changed = true;
-    while changed {
-        changed = false;
-        for (i, l) in ctx.iter().enumerate().rev() {
-            if take[i] {
-                continue;
-            }
-            let mut ids = vec![];
-            pat_idents(&l.pat, &mut ids);
-            if ids.iter().any(|x| needed.contains(x) && !params.contains(x)) {
-                take[i] = true;
-                changed = true;
-                let (u2, _) = used_and_bound(&[Stmt::Local(l.clone())]);
-                for u in u2 {
-                    if !needed.contains(&u) && !params.contains(&u) {
-                        needed.push(u);
-                    }
+    // one backward pass: the closest preceding definition of a needed name is the one in effect (an earlier `let` of the same name is
+    // shadowed and not carried); what the carried `let` itself uses becomes needed in front of it
+    for (i, l) in ctx.iter().enumerate().rev() {
+        let mut ids = vec![];
+        pat_idents(&l.pat, &mut ids);
+        if ids.iter().any(|x| needed.contains(x) && !params.contains(x)) {
+            take[i] = true;
+            needed.retain(|x| !ids.contains(x));
+            let (u2, _) = used_and_bound(&[Stmt::Local(l.clone())]);
+            for u in u2 {
+                if !needed.contains(&u) && !params.contains(&u) {
+                    needed.push(u);
                 }
             }
         }
